@@ -732,7 +732,8 @@ class Executor:
 
     def abs_eq(self, st: State, p: L.Abs, q: L.Abs) -> z3.BoolRef:
         if p.sym != q.sym or len(p.args) != len(q.args):
-            raise L.ShapeMismatch(f"opaque lists {p.sym} / {q.sym}")
+            # different uninterpreted list functions: not equal in general
+            return z3.BoolVal(False)
         return z3.And(*[self.eq(st, x, y) for x, y in zip(p.args, q.args)]) if p.args else z3.BoolVal(True)
 
     def subst(self, st: State, v, ivar, term):
